@@ -28,7 +28,7 @@ package scenario
 
 // Every instance gets its own clone of the scenario with a new id.
 //@ func (p *Provider) Acquire
-//@ props C08 C10 C11
+//@ props C08 C10 C11 C03
 //@ nilsafe
 //@ ensures [end-of-ammo-when-the-sink-is-closed] imp(!result_of(<-p.sink, 1), result0 == nil && !result1)
 //@ ensures [a-private-clone] imp(result_of(<-p.sink, 1), result1 && calls(ammo.Clone) == 1 && result0 == box(result_of(ammo.Clone, 0)))
